@@ -39,10 +39,13 @@ def rot_case(draw, ndim=(2, 4)):
     else:
         k = 3 if nd == 2 else max(2, nd - 1)
     vd = draw(gen.vdims_strategy(k))
-    ref = draw(st.sampled_from(["default", "default", "cells", "far"]))
+    ref = draw(st.sampled_from(["default", "default", "cells", "far", "corner"]))
     refv = None
     if ref == "cells":
         refv = [draw(st.integers(-6, 12)) / 2 for _ in range(nd)]
+    elif ref == "corner":
+        # a corner of the region itself, handed over with the type the corners were given in (integers stay integers)
+        refv = ["corner"] + [draw(st.integers(0, 1)) for _ in range(nd)]
     elif ref == "far":
         refv = [draw(st.sampled_from([-1000.0, 517.5, 1e4])) for _ in range(nd)]
     # far reference points only without subregions: the subregion alignment check uses an absolute 1e-12
@@ -50,7 +53,7 @@ def rot_case(draw, ndim=(2, 4)):
     return {"g": g, "subs": subs, "k": k, "vdims": vd, "kind": kind,
             "perm": list(draw(st.permutations(range(nd)))), "drop": draw(st.integers(0, 3)),
             "dtype": draw(st.sampled_from(["float", "float", "int"])), "seed": draw(st.integers(0, 2**31)),
-            "huge_int": draw(st.booleans()),
+            "huge_int": draw(st.booleans()), "foreign_axis": draw(st.booleans()),
             "mask": draw(gen.mask_spec(nd)), "ref": refv, "ref_type": draw(st.sampled_from(["tuple", "list", "array"])),
             "inplace_picks": [draw(st.integers(0, 10**6)) for _ in range(4)], "unit": draw(st.sampled_from(gen.FIELD_UNITS))}
 
@@ -71,10 +74,15 @@ def mapping_of(case, dims):
         if len(m) != k:
             # vdim_mapping must have all labels as keys (values may be None)
             m = {labels[c]: (tg[c]) for c in range(k)}
+            if case.get("foreign_axis"):
+                # what a plane cut of a higher-dimensional field carries: the component of the axis cut away stays
+                # mapped to that axis' name, which the mesh no longer has - an unmapped component for the rotation
+                foreign = next(x for x in ("z", "w", "out") if x not in dims)
+                m = {l: (foreign if t is None else t) for l, t in m.items()}
     comp_on_axis = {}
     for c, l in enumerate(labels):
         t = m.get(l)
-        if t is not None:
+        if t is not None and t in dims:
             comp_on_axis[dims.index(t)] = c
     return labels, m, comp_on_axis
 
@@ -110,6 +118,11 @@ def build(case, with_mapping=True):
 def ref_point(case, lat):
     if case["ref"] is None:
         return None, [(lat.pmin[d] + lat.pmax[d]) / 2 for d in range(lat.ndim)]
+    conv = {"tuple": tuple, "list": list, "array": np.array}[case["ref_type"]]
+    if case["ref"][0] == "corner":
+        g = case["g"]
+        vals = [(g["p2"] if bit else g["p1"])[d] for d, bit in enumerate(case["ref"][1:])]
+        return conv(vals), [F(v) for v in vals]
     if all(isinstance(x, float) and abs(x) >= 100 for x in case["ref"]):
         vals = [float(x) * float(lat.cell[d]) for d, x in enumerate(case["ref"])]
     else:
@@ -356,7 +369,22 @@ def check_refuse_inplace(case):
     if case["k"] == 1:
         raise Reject()
     dims = gen.dims_of(g)
-    _, f, arr, _ = build(case, with_mapping=False)
+    how = case["inplace_picks"][0] % 3
+    if how == 0:
+        _, f, arr, _ = build(case, with_mapping=False)
+    else:
+        # a mapped field that loses its labels (and with them the mapping); how == 2: new labels afterwards
+        _, f, arr, _ = build(case, with_mapping=True)
+        f.vdims = []
+        require(f.vdims is None, "labels-not-removed", f"{f.vdims}")
+        if how == 2:
+            f.vdims = [f"w{c}" for c in range(case["k"])]
+            # the setter's own invariant: the keys of the mapping are component labels
+            require(set(f.vdim_mapping) <= set(f.vdims), "mapping-keys-not-labels", f"{f.vdim_mapping} vs {f.vdims}")
+            require(np.array_equal((-f).array, -arr), "relabelled-negation")
+            if f.vdim_mapping:
+                raise Reject()  # a mapping survived the relabelling: nothing to refuse
+    tag(f"unmapped-how={how}")
     snap = snapshot(f)
     a, b = case["perm"][0], case["perm"][1]
     k = 1 + case["drop"]
